@@ -16,9 +16,9 @@ def rows(exe):
     out = subprocess.run([exe, "list"], capture_output=True, text=True).stdout
     rs = []
     for l in out.splitlines():
-        m = re.match(r"ROW (\d+) tier=(\d+) threads=(\d+) bp=(\d+) (.*)", l)
+        m = re.match(r"ROW (\d+) tier=(\d+) threads=(\d+) bp=(\d+) tbp=(-?\d+) (.*)", l)
         if m:
-            rs.append((int(m.group(1)), int(m.group(2)), int(m.group(3)), m.group(5), int(m.group(4))))
+            rs.append((int(m.group(1)), int(m.group(2)), int(m.group(3)), m.group(6), int(m.group(4)), int(m.group(5))))
     return rs
 
 
@@ -48,7 +48,7 @@ def run(ck, tier, name, src, extra=()):
     budget = {"VERIF_HARNESS_BUDGET_S": str(max(20, ck.time_left() - 25))}
     # 1. ASan+UBSan, full bounds of the tier. Long rows are split over the level-1 frontier.
     args, labels = [], []
-    for (i, t, thr, nm, rbp) in sel:
+    for (i, t, thr, nm, rbp, tbp) in sel:
         nsh = 4 if tier == "thorough" else 2
         for s in range(nsh):
             args.append(["run", i, tier, s, nsh]); labels.append(f"row{nm}")
@@ -56,13 +56,15 @@ def run(ck, tier, name, src, extra=()):
     # 2. ThreadSanitizer under the same scheduler (preemption bound 1; thorough: the tier's bounds), race reports keyed by site pair
     e = {"TSAN_OPTIONS": "exitcode=0:halt_on_error=0:report_signal_unsafe=0:history_size=4:second_deadlock_stack=0", **budget}
     targs, tlabels = [], []
-    for (i, t, thr, nm, rbp) in sel:
+    for (i, t, thr, nm, rbp, tbp) in sel:
         # quick: preemption bound 1 for 2-thread rows (0 for 3 threads and for rows with timed waits, which get 1 expiry instead)
         timed = "to=1" in nm
         bp = 1 if (thr <= 2 and not timed) else 0
         if tier == "thorough":
             bp = 1
         bp = min(bp, rbp)   # rows whose own bound is 0 (long multi-session scripts) stay at 0 here too
+        if tbp >= 0:
+            bp = tbp        # rows that ask for a specific bound under ThreadSanitizer
         targs.append(["run", i, tier, 0, 1, bp, 1 if timed else 0, 0])
         tlabels.append(f"tsan:row{nm}")
     # Each TSan process explores at most VS_MAX_EXEC executions, then writes its frontier to a file and a fresh process continues
